@@ -843,7 +843,8 @@ def corpus_case(draw, max_extent=4, spacetime_ratio=2, static_only=True,
         c = draw(case_cascade(max_extent=3))
     c.setdefault("family", fam)
     mode = "plain"
-    if draw(st.integers(0, spacetime_ratio)) == 0:
+    # (spacetime_ratio None = never; a huge upper bound would not do: integer strategies favour their end points)
+    if spacetime_ratio is not None and draw(st.integers(0, spacetime_ratio)) == 0:
         c = draw(with_spacetime(c))
         if c["spec"].get("spacetime"):
             mode = "spacetime"
